@@ -43,7 +43,7 @@ func c13FmqClass(bind []channel.Inbound, connect []channel.Outbound) *taskclass.
 //   - an explicit tcp:// or ipc:// target is passed through unchanged with the outbound's own transport;
 //   - a target matching nothing fails the configuration.
 // Channels are declared at role level or at task-template level.
-//verif:entry HarnessChannelWiring unwind=32 preempt=0 timers=lazy reach=bypath,byalias,explicit,unmatched stub=github.com/AliceO2Group/Control/common/utils.TimeTrack
+//verif:entry HarnessChannelWiring unwind=32 conform=12 preempt=0 timers=lazy reach=bypath,byalias,explicit,unmatched stub=github.com/AliceO2Group/Control/common/utils.TimeTrack
 func HarnessChannelWiring() {
 	template.VerifHook_Fields_Execute = func(f template.Fields, confSvc template.ConfigurationService, parentPath string, varStack map[string]string, objStack map[string]interface{}, baseConfigStack map[string]string, cache map[string]texttemplate.Template, repo repos.IRepo) error {
 		return nil // template evaluation is the identity on the literal values used here
@@ -136,7 +136,7 @@ func HarnessChannelWiring() {
 
 // Two tasks binding different endpoints (another port, or the same port number on another host) under the same
 // global alias are rejected.
-//verif:entry HarnessGlobalAliasConflict unwind=32 preempt=0 timers=lazy reach=conflict stub=github.com/AliceO2Group/Control/common/utils.TimeTrack
+//verif:entry HarnessGlobalAliasConflict unwind=32 conform=12 preempt=0 timers=lazy reach=conflict stub=github.com/AliceO2Group/Control/common/utils.TimeTrack
 func HarnessGlobalAliasConflict() {
 	template.VerifHook_Fields_Execute = func(f template.Fields, confSvc template.ConfigurationService, parentPath string, varStack map[string]string, objStack map[string]interface{}, baseConfigStack map[string]string, cache map[string]texttemplate.Template, repo repos.IRepo) error {
 		return nil
